@@ -7,6 +7,7 @@ import (
 	"context"
 	"encoding/json"
 	"fmt"
+	"github.com/sourcenetwork/defradb/internal/db"
 	"sort"
 	"strings"
 
@@ -138,6 +139,17 @@ func (r *Runner) apply(in *inst, st *Step) error {
 		if len(in.versions) != next {
 			return fmt.Errorf("patch produced %d versions, expected %d", len(in.versions), next)
 		}
+	case "discardedpatch":
+		// the same kind of patch inside an explicit transaction that is discarded: nothing may remain of it
+		txn, err := in.n.DB.NewTxn(ctx, false)
+		if err != nil {
+			return err
+		}
+		tctx := db.InitContext(ctx, txn)
+		patch := fmt.Sprintf(`[{"op": "add", "path": "/T/Fields/-", "value": {"Name": "f%d", "Kind": "Int"}}]`, len(in.versions)+1)
+		perr := in.n.DB.PatchSchema(tctx, patch, immutable.None[model.Lens](), true)
+		txn.Discard(ctx)
+		return perr
 	case "setactive":
 		return in.n.DB.SetActiveSchemaVersion(ctx, in.versions[st.K-1])
 	case "indexcreate":
@@ -158,7 +170,7 @@ func (r *Runner) apply(in *inst, st *Step) error {
 }
 
 // dump is the full logical view used to compare the restarted node with its twin.
-func (r *Runner) dump(in *inst, nfields int) (string, error) {
+func (r *Runner) dump(in *inst, fields []int) (string, error) {
 	ctx := r.Ctx
 	out := map[string]any{}
 	cols, err := in.n.DB.GetCollections(ctx, client.CollectionFetchOptions{IncludeInactive: immutable.Some(true)})
@@ -181,7 +193,7 @@ func (r *Runner) dump(in *inst, nfields int) (string, error) {
 	sort.Strings(cd)
 	out["collections"] = cd
 	sel := "_docID _deleted k"
-	for f := 1; f <= nfields; f++ {
+	for _, f := range fields {
 		sel += fmt.Sprintf(" f%d", f)
 	}
 	d, err := in.n.Exec(ctx, fmt.Sprintf(`query { T(showDeleted: true, order: {k: ASC}) { %s } }`, sel))
@@ -199,6 +211,12 @@ func (r *Runner) dump(in *inst, nfields int) (string, error) {
 		return "", fmt.Errorf("commits: %w", err)
 	}
 	out["commits"] = d
+	// the GraphQL type system the running node answers with
+	d, err = in.n.Exec(ctx, `query { __type(name: "T") { fields { name } } }`)
+	if err != nil {
+		return "", fmt.Errorf("introspection: %w", err)
+	}
+	out["gqltype"] = d
 	b, _ := json.Marshal(out)
 	return string(b), nil
 }
@@ -252,9 +270,8 @@ func (r *Runner) Replay(steps []Step) {
 			}
 		}
 		// C14: indistinguishable from the twin
-		nf := len(st.Obs.Fields)
-		dm, err1 := r.dump(main, nf)
-		dt, err2 := r.dump(twin, nf)
+		dm, err1 := r.dump(main, st.Obs.Fields)
+		dt, err2 := r.dump(twin, st.Obs.Fields)
 		r.Res.Compared++
 		if err1 != nil || err2 != nil {
 			if (err1 == nil) != (err2 == nil) {
@@ -299,9 +316,8 @@ func trunc(s string, n int) string {
 
 func (r *Runner) compareObs(in *inst, st *Step, si int) {
 	ctx := r.Ctx
-	nf := len(st.Obs.Fields)
 	sel := "k"
-	for f := 1; f <= nf; f++ {
+	for _, f := range st.Obs.Fields {
 		sel += fmt.Sprintf(" f%d", f)
 	}
 	d, err := in.n.Exec(ctx, fmt.Sprintf(`query { T(order: {k: ASC}) { %s } }`, sel))
@@ -319,7 +335,7 @@ func (r *Runner) compareObs(in *inst, st *Step, si int) {
 	for _, row := range cluster.Rows(d, "T") {
 		k, _ := row["k"].(json.Number).Int64()
 		var vals []int
-		for f := 1; f <= nf; f++ {
+		for _, f := range st.Obs.Fields {
 			x := row[fmt.Sprintf("f%d", f)]
 			if x == nil {
 				vals = append(vals, -1)
@@ -332,12 +348,37 @@ func (r *Runner) compareObs(in *inst, st *Step, si int) {
 	}
 	r.Res.Compared++
 	if fmt.Sprint(got) != fmt.Sprint(want) {
-		r.violate("C19", "values", si, "after %s (active version %d of %d) the documents read %v, the specification says %v (k -> values of f1..f%d, -1 = null)", st.Op, st.Obs.Active, st.Obs.Nver, got, want, nf)
+		r.violate("C19", "values", si, "after %s (active version %d of %d) the documents read %v, the specification says %v (k -> values of the fields %v, -1 = null)", st.Op, st.Obs.Active, st.Obs.Nver, got, want, st.Obs.Fields)
 	}
-	// a field the active version does not know must not be queryable
-	if st.Obs.Active < st.Obs.Nver {
-		if _, err := in.n.Exec(ctx, fmt.Sprintf(`query { T { f%d } }`, st.Obs.Active+1)); err == nil {
-			r.violate("C19", "stale-type", si, "field f%d of an inactive later version is queryable under active version %d", st.Obs.Active+1, st.Obs.Active)
+	// a field the active version does not know must not be queryable, and the GraphQL type lists exactly the known ones
+	known := map[int]bool{}
+	for _, f := range st.Obs.Fields {
+		known[f] = true
+	}
+	for f := 1; f <= st.Obs.Nver+1; f++ {
+		if known[f] {
+			continue
+		}
+		if _, err := in.n.Exec(ctx, fmt.Sprintf(`query { T { f%d } }`, f)); err == nil {
+			r.violate("C19", "stale-type", si, "field f%d, which the active version %d does not know (known: %v), is queryable", f, st.Obs.Active, st.Obs.Fields)
+		}
+	}
+	if td, err := in.n.Exec(ctx, `query { __type(name: "T") { fields { name } } }`); err == nil {
+		var got []int
+		if t, ok := td["__type"].(map[string]any); ok {
+			fl, _ := t["fields"].([]any)
+			for _, x := range fl {
+				if m, ok := x.(map[string]any); ok {
+					var f int
+					if n, _ := fmt.Sscanf(fmt.Sprint(m["name"]), "f%d", &f); n == 1 {
+						got = append(got, f)
+					}
+				}
+			}
+		}
+		sort.Ints(got)
+		if fmt.Sprint(got) != fmt.Sprint(st.Obs.Fields) {
+			r.violate("C19", "gql-type", si, "after %s the GraphQL type T has the fields f%v, the active version %d knows f%v", st.Op, got, st.Obs.Active, st.Obs.Fields)
 		}
 	}
 	// commit history length per document is unchanged by schema operations
